@@ -330,4 +330,123 @@ def qtanhX (t : Tie) (bits : Int) (sym : Bool) (σ : Rat → Rat) (m : SigMode) 
 def qreluSigX (t : Tie) (c : ReluCfg) (σ : Rat → Rat) (m : SigMode) (x : Rat) : Rat :=
   qreluSigU t c (internalSigmoid σ m (x / pow2 c.integer))
 
+/-! ### `use_stochastic_rounding` × the learning phase (strengthening round, seed C02-7)
+
+Every fixed-point class hands its flag `use_stochastic_rounding` to `_round_through(x, flag, precision=1.0)`:
+
+    if use_stochastic_rounding:
+      smart_cond(K.learning_phase(), lambda: stochastic_round(x, 1.0), lambda: tf.round(x))
+    else:
+      tf.round(x)
+
+`K.learning_phase()` is read when the quantizer is CALLED (nothing is captured at construction); the
+uniform draw of `stochastic_round` is an explicit argument, one per `_round_through` call
+(`quantized_relu` with a leaky slope makes two).  The classes below are the classes above with the
+rounding step as a parameter `ρ`; `q…S` instantiates it with `_round_through` under a `RoundMode`.
+The definitions above are untouched: `q…R (roundTie t) = q… t` holds by `rfl`
+(`Lemmas/FixedQ.lean`), and with the learning phase off — or the flag off — `q…S = q…` for every
+draw (`Props/C02.lean`, `C02_*_inference`). -/
+
+/-- `stochastic_round(x, precision=1.0)`: `where(x - floor x < u, floor x, ceil x)` -/
+def stochRound1 (x u : Rat) : Int :=
+  if x - (x.floor : Rat) < u then x.floor else - (-x).floor
+
+/-- forward value of `_round_through(x, use_stochastic_rounding, precision=1.0)`;
+    `phase` = `K.learning_phase()` at the call, `u` = the draw (read in the training branch only) -/
+def roundThroughI (t : Tie) (stoch phase : Bool) (u x : Rat) : Int :=
+  if stoch then (if phase then stochRound1 x u else roundTie t x) else roundTie t x
+
+/-- how a call rounds: the quantizer's flag, the learning phase at the call, the draws -/
+structure RoundMode where
+  stoch : Bool := false      -- use_stochastic_rounding
+  phase : Bool := false      -- K.learning_phase() when the quantizer is called (true = training)
+  u : Rat := 0               -- draw of the (first) `_round_through` call
+  u2 : Rat := 0              -- draw of the second call (leaky part of quantized_relu)
+  deriving Repr
+
+def RoundMode.rho (t : Tie) (r : RoundMode) : Rat → Int := roundThroughI t r.stoch r.phase r.u
+def RoundMode.rho2 (t : Tie) (r : RoundMode) : Rat → Int := roundThroughI t r.stoch r.phase r.u2
+
+/-- `quantized_bits.__call__` with the rounding step `ρ` -/
+def qbitsR (ρ : Rat → Int) (c : BitsCfg) (x : Rat) : Rat :=
+  if 0 < c.ub then
+    c.gain * ((iclip (ρ (x / c.step)) c.lo c.hi : Int) : Rat) * c.step
+  else
+    -- the 1-bit sign branch never reaches `_round_through`
+    let s := signPM x
+    c.gain * (if c.keepNeg then s else (s + 1) / 2)
+
+/-- `quantized_relu.__call__` (before the upper-bound pass) with the rounding steps `ρ` (positive
+    part) and `ρ2` (leaky part): two `_round_through` calls, two draws -/
+def qreluR (ρ ρ2 : Rat → Int) (c : ReluCfg) (x : Rat) : Rat :=
+  let p := x / c.step
+  let pos : Rat := ((iclip (ρ p) 0 c.hi : Int) : Rat) * c.step
+  match c.slopeLog with
+  | none => pos
+  | some _ =>
+    let sm : Rat := c.slope * (twoPow c.nsb : Rat)
+    let r : Rat := (ρ2 (p * c.slope) : Rat) / sm
+    let cl : Rat := if r < -1 then -1 else if 0 < r then 0 else r
+    pos + pow2 c.integer * c.slope * cl
+
+def qreluUR (ρ ρ2 : Rat → Int) (c : ReluCfg) (x : Rat) : Rat := clampTo c.clamp (qreluR ρ ρ2 c x)
+
+/-- `quantized_relu(use_sigmoid=1)` on the surrogate value, rounding steps `ρ`, `ρ2` -/
+def qreluSigPR (ρ ρ2 : Rat → Int) (c : ReluCfg) (s : Rat) : Rat :=
+  let m : Rat := (twoPow c.nsb : Rat)
+  let p := s * m
+  let pos := pow2 c.integer * rclip (2 * ((ρ p : Rat) / m) - 1) 0 (1 - 1 / m)
+  match c.slopeLog with
+  | none => pos
+  | some _ =>
+    pos + pow2 c.integer * c.slope *
+      rclip (2 * ((ρ2 (p * c.slope) : Rat) / (c.slope * m)) - 1) (-1) 0
+
+def qreluSigUR (ρ ρ2 : Rat → Int) (c : ReluCfg) (s : Rat) : Rat := clampTo c.clamp (qreluSigPR ρ ρ2 c s)
+
+/-- `quantized_linear.__call__` (clip, then `_round_through`) with the rounding step `ρ` -/
+def qlinearR (ρ : Rat → Int) (c : LinCfg) (x : Rat) : Rat :=
+  let s := x / c.qs
+  if c.signFn then
+    let cl : Rat := if s < -1/2 then -1/2 else if 1/2 < s then 1/2 else s
+    (((ρ (cl - 1/2) : Int) : Rat) + 1/2) * c.qs
+  else
+    let cl : Rat := if s < (c.lo : Rat) then (c.lo : Rat) else if (c.hi : Rat) < s then (c.hi : Rat) else s
+    ((ρ cl : Int) : Rat) * c.qs
+
+def qtanhPR (ρ : Rat → Int) (bits : Int) (symmetric : Bool) (p : Rat) : Rat :=
+  let m := twoPow (bits - 1)
+  ((iclip (ρ (p * (m : Rat))) (-m + (if symmetric then 1 else 0)) (m - 1) : Int) : Rat) / (m : Rat)
+
+def qsigmoidPR (ρ : Rat → Int) (bits : Int) (symmetric : Bool) (p : Rat) : Rat :=
+  let m := twoPow bits
+  ((iclip (ρ (p * (m : Rat))) (if symmetric then 1 else 0) (m - 1) : Int) : Rat) / (m : Rat)
+
+/-- the classes as called: flag of the object × learning phase at the call × draws -/
+def qbitsS (t : Tie) (r : RoundMode) (c : BitsCfg) (x : Rat) : Rat := qbitsR (r.rho t) c x
+def qreluUS (t : Tie) (r : RoundMode) (c : ReluCfg) (x : Rat) : Rat := qreluUR (r.rho t) (r.rho2 t) c x
+def qreluSigUS (t : Tie) (r : RoundMode) (c : ReluCfg) (s : Rat) : Rat := qreluSigUR (r.rho t) (r.rho2 t) c s
+def qlinearS (t : Tie) (r : RoundMode) (c : LinCfg) (x : Rat) : Rat := qlinearR (r.rho t) c x
+def qtanhPS (t : Tie) (r : RoundMode) (bits : Int) (sym : Bool) (p : Rat) : Rat := qtanhPR (r.rho t) bits sym p
+def qsigmoidPS (t : Tie) (r : RoundMode) (bits : Int) (sym : Bool) (p : Rat) : Rat :=
+  qsigmoidPR (r.rho t) bits sym p
+
+/-- a session with one quantizer object whose flag is `stoch`: the learning phase is switched
+    (`K.set_learning_phase`, `K.learning_phase_scope`), objects are constructed, the quantizer is
+    called with a fresh draw.  `q r x` = the value of a call under round mode `r`. -/
+inductive PhaseEv
+  | setPhase (training : Bool)
+  | construct
+  | call (x u u2 : Rat)
+  deriving Repr
+
+/-- outputs of the calls of a session: a call sees the phase that was set LAST; constructing the
+    object under some phase captures nothing -/
+def runPhaseSession (stoch : Bool) (q : RoundMode → Rat → Rat) : Bool → List PhaseEv → List Rat
+  | _, [] => []
+  | _, .setPhase b :: es => runPhaseSession stoch q b es
+  | ph, .construct :: es => runPhaseSession stoch q ph es
+  | ph, .call x u u2 :: es =>
+    q { stoch := stoch, phase := ph, u := u, u2 := u2 } x :: runPhaseSession stoch q ph es
+
 end QKV
